@@ -4,6 +4,7 @@ import (
 	"fmt"
 	"math"
 	"strconv"
+	"strings"
 
 	refwire "google.golang.org/protobuf/encoding/protowire"
 
@@ -128,7 +129,12 @@ func deepGroups(depth int, close bool) []byte {
 func (c *ctx) streamP() error {
 	c.rep.Rule = "boundary-biased and random arguments for every primitive of internal/protowire and conv.go; consume functions on mutated encodings, over-long varints and token strings; distinct = distinct operation line; every case non-trivial"
 	var cases []opcase
-	add := func(op, real, ref string) { cases = append(cases, opcase{op, real, ref}) }
+	add := func(op, real, ref string) {
+		if !haveOverlay && (strings.HasPrefix(op, "apptag") || strings.HasPrefix(op, "encbits") || strings.HasPrefix(op, "decbits")) {
+			return // these three need the overlay exports
+		}
+		cases = append(cases, opcase{op, real, ref})
+	}
 	n := c.n
 	for i := 0; i < n; i++ {
 		v := gen.Bits(c.r, "uint64")
@@ -180,7 +186,7 @@ func (c *ctx) streamP() error {
 		case 9:
 			num := randFieldNum(c)
 			typ := int8(c.r.Intn(8))
-			add(fmt.Sprintf("apptag %d %d", num, typ), hexs(picobuf.VerifAppendTag(nil, picobuf.FieldNumber(num), typ)), hexs(refwire.AppendTag(nil, refwire.Number(num), refwire.Type(typ))))
+			add(fmt.Sprintf("apptag %d %d", num, typ), hexs(ovAppendTag(nil, num, typ)), hexs(refwire.AppendTag(nil, refwire.Number(num), refwire.Type(typ))))
 		case 10:
 			b := randWireBytes(c)
 			x, t, k := protowire.ConsumeTag(b)
@@ -217,11 +223,11 @@ func (c *ctx) streamP() error {
 			w := uint32(gen.Bits(c.r, "sint32"))
 			// sint32 as the plain writer hands it to AppendVarint; reference closed form
 			zz := uint32((int32(w) << 1) ^ (int32(w) >> 31))
-			add(fmt.Sprintf("encbits 0 5 %d", w), fmt.Sprint(uint64(picobuf.VerifEncodeZigZag32(int32(w)))), fmt.Sprint(uint64(zz)))
+			add(fmt.Sprintf("encbits 0 5 %d", w), fmt.Sprint(uint64(ovEncodeZigZag32(int32(w)))), fmt.Sprint(uint64(zz)))
 		case 15:
 			w := uint32(gen.Bits(c.r, "uint32"))
 			dz := uint32(int32(w>>1) ^ -int32(w&1))
-			add(fmt.Sprintf("decbits 0 5 %d", w), fmt.Sprint(uint32(picobuf.VerifDecodeZigZag32(w))), fmt.Sprint(dz))
+			add(fmt.Sprintf("decbits 0 5 %d", w), fmt.Sprint(uint32(ovDecodeZigZag32(w))), fmt.Sprint(dz))
 		}
 	}
 	// deep groups: the recursion limit of skipped groups
